@@ -38,7 +38,8 @@ import (
 type c16Scenario struct {
 	Topology string `json:"topology"` // transit | shared
 	Kind     string `json:"kind"`     // tcp | forward
-	SameIDs  bool   `json:"same_ids"` // both ingress use stream id 1 (true) or 1 and 3 (control)
+	SameIDs  bool   `json:"same_ids"` // both ingress use stream id 1 (true) or different ids
+	Crossed  bool   `json:"crossed_ids,omitempty"` // distinct ids, but ingress 1 uses id 3 and ingress 2 id 1 (a tunnel's upstream id equals the other's downstream id at the transit)
 	End      [2]string `json:"end"`   // close | reset per tunnel
 	Order    []int  `json:"order"`    // interleaving: which tunnel takes its next step
 }
@@ -47,6 +48,9 @@ func (s c16Scenario) label() string {
 	ids := "colliding-ids"
 	if !s.SameIDs {
 		ids = "distinct-ids"
+		if s.Crossed {
+			ids = "crossed-distinct-ids"
+		}
 	}
 	return fmt.Sprintf("%s/%s/%s", s.Topology, s.Kind, ids)
 }
@@ -146,6 +150,9 @@ func (w *c16World) step(sc c16Scenario, i int, stepNo int, r *vmc.Result) string
 	if !sc.SameIDs && i == 1 {
 		sid = 3
 	}
+	if !sc.SameIDs && sc.Crossed {
+		sid = uint64(3 - 2*i) // ingress 0 uses 3, ingress 1 uses 1
+	}
 	var remaining []identity.AgentID
 	if sc.Topology == "transit" {
 		remaining = []identity.AgentID{w.nt.ids[w.x]}
@@ -188,8 +195,18 @@ func (w *c16World) step(sc c16Scenario, i int, stepNo int, r *vmc.Result) string
 				return "harness: exit read loop never forwarded target data"
 			}
 		}
-	case 3: // close | reset
-		if w.tun[i] != nil {
+	case 3: // close | reset | target-close
+		if sc.End[i] == "target-close" {
+			if c := w.tgt[i].conn(0); c != nil && !c.PeerClosed() {
+				g0 := runtime.NumGoroutine()
+				c.Close()
+				// the exit's read loop sees EOF, sends FIN, closes its side and sends CLOSE upstream
+				if !nsWait(func() bool { return c.PeerClosed() || runtime.NumGoroutine() < g0 }) {
+					return "harness: exit read loop did not end after the target closed"
+				}
+			}
+			w.ended[i] = true
+		} else if w.tun[i] != nil {
 			if sc.End[i] == "reset" {
 				w.tun[i].sendReset(ep)
 			} else {
@@ -319,17 +336,21 @@ func TestVerif_C16(t *testing.T) {
 	orders := c16Orders()
 	for _, topo := range []string{"transit", "shared"} {
 		for _, kind := range []string{"tcp", "forward"} {
-			for _, same := range []bool{false, true} {
-				ends := [][2]string{{"close", "reset"}}
+			for _, idmode := range []string{"distinct", "same", "crossed"} {
+				same, crossed := idmode == "same", idmode == "crossed"
+				ends := [][2]string{{"close", "reset"}, {"target-close", "close"}}
 				if r.Thorough() {
-					ends = [][2]string{{"close", "reset"}, {"reset", "close"}, {"close", "close"}, {"reset", "reset"}}
+					ends = [][2]string{{"close", "reset"}, {"reset", "close"}, {"close", "close"}, {"reset", "reset"}, {"target-close", "close"}, {"close", "target-close"}, {"target-close", "target-close"}, {"target-close", "reset"}}
+				}
+				if crossed && topo == "shared" && !r.Thorough() {
+					continue
 				}
 				for _, end := range ends {
 					for _, ord := range orders {
 						if r.Expired() {
 							break
 						}
-						sc := c16Scenario{Topology: topo, Kind: kind, SameIDs: same, End: end, Order: ord}
+						sc := c16Scenario{Topology: topo, Kind: kind, SameIDs: same, Crossed: crossed, End: end, Order: ord}
 						c16Run(r, sc)
 						r.Add("evaluations", 1)
 						r.Add("states", 1)
